@@ -197,6 +197,10 @@ def create_padding(cmd: NpuStripe, primary_op: Operation, npu_op: NpuBlockOperat
             channels=cmd.ps.ifm_shapes[0].depth,
             dtype=cmd.ifm_tensor.dtype,
         )
+        # The operation reads one row and one column more than the feature map has (the tiles repeat the edge): the
+        # dependency and memory access checks must see the last row / column it reads as well
+        ifm_h, ifm_w, ifm_d = npu_op.ifm.shape
+        npu_op.ifm.shape = NpuShape3D(height=ifm_h + 1, width=ifm_w + 1, depth=ifm_d)
         top, left, bottom, right = 0, 0, 0, 0
 
     return NpuPadding(top=top, left=left, bottom=bottom, right=right)
